@@ -66,6 +66,7 @@ def run(ctx):
         pats += [[k for k in full if grade(k) in (1, 2)][:5]]
         if d == 4:
             pats += [[3, 12], [5, 10, 3]]          # non-simple bivectors: the wedge square does not vanish
+            pats += [[3, 12, 7, 14], [5, 10, 11, 13]]     # non-simple bivector + trivector: outercos gets a grade-4 part that does not commute with outersin
         for kx in pats:
             vals = [Fraction(rng.randint(-4, 5) or 1, rng.choice([1, 2])) for _ in kx]
             x = MultiVector.fromkeysvalues(alg, tuple(kx), list(vals))
@@ -98,7 +99,7 @@ def run(ctx):
                     continue
                 if not close(got, exp):
                     ctx.violation('outer-series', case, {k: str(v) for k, v in exp.items()}, {k: str(v) for k, v in got.items()}, key=f'{nm}:series')
-            if len(kx) <= 3 and d <= 4:
+            if len(kx) <= 4 and d <= 4:
                 case = {'sig': sig, 'op': 'outertan', 'kx': kx, 'values': [str(v) for v in vals]}
                 ctx.case(case, tag='outer:outertan')
                 try:
@@ -216,6 +217,24 @@ def run(ctx):
                         ctx.violation('pow-half', case, str(dict_of(s))[:200], str(p)[:200], key='pow:half')
                 except Exception as ex:
                     ctx.violation('sqrt-raises', case, 'sqrt(x)', repr(ex)[:200], key=f'sqrt:raises:{dtype}:{type(ex).__name__}')
+            # a Study number with positive scalar part whose squared norm is a NEGATIVE scalar (scalar + hyperbolic blade with the
+            # larger coefficient): the norm is imaginary; norm()**2 is still normsq and normalized() still has squared norm 1
+            if len(kx) == 2 and int(S[kx[1], kx[1]]) != 0:
+                xn = MultiVector.fromkeysvalues(alg, tuple(kx), [1.0, 2.5])
+                nsq = dict_of(xn.normsq())
+                if set(k for k, v in nsq.items() if abs(v) > 1e-12) <= {0} and nsq.get(0, 0) < 0:
+                    casen = {'sig': sig, 'kx': kx, 'values': [1.0, 2.5], 'normsq': nsq.get(0, 0)}
+                    ctx.case(casen, tag='norm:negative-normsq')
+                    try:
+                        nrm = xn.norm()
+                        sq = {k: complex(v) for k, v in dict_of(nrm * nrm).items() if abs(complex(v)) > 1e-9}
+                        if set(sq) != {0} or abs(sq[0] - nsq[0]) > 1e-9 * abs(nsq[0]):
+                            ctx.violation('norm', casen, str(nsq), str(sq), key='norm:square:negative-normsq')
+                        un = {k: complex(v) for k, v in dict_of(xn.normalized().normsq()).items() if abs(complex(v)) > 1e-9}
+                        if set(un) != {0} or abs(un[0] - 1) > 1e-9:
+                            ctx.violation('normalized', casen, '{0: 1}', str(un), key='normalized:negative-normsq')
+                    except Exception as ex:
+                        ctx.count('norm-negative-raises:' + type(ex).__name__)
             # integer powers, norm, normalized (exact where possible)
             vals = [Fraction(rng.randint(2, 6))] + [Fraction(rng.randint(-3, 3) or 1, 2) for _ in kx[1:]]
             x = MultiVector.fromkeysvalues(alg, tuple(kx), list(vals))
